@@ -131,3 +131,10 @@ Lemma Rmin_spec a b : (Rmin a b = a /\ a <= b) \/ (Rmin a b = b /\ b <= a).
 Proof. unfold Rmin; destruct (Rle_dec a b); [left|right]; split; lra. Qed.
 Lemma Rabs_spec a : (Rabs a = a /\ 0 <= a) \/ (Rabs a = - a /\ a <= 0).
 Proof. unfold Rabs; destruct (Rcase_abs a); [right|left]; split; lra. Qed.
+
+Lemma truthy_ne0 c : c <> 0 -> truthy c = true.
+Proof. intro H. unfold truthy. rewrite Reqb'_false by assumption. reflexivity. Qed.
+Lemma op_ifz_true c x : c <> 0 -> op_ifz c x = x.
+Proof. intro H. unfold op_ifz. rewrite truthy_ne0 by assumption. reflexivity. Qed.
+Lemma op_not_true c : c <> 0 -> op_not c = 0.
+Proof. intro H. unfold op_not. rewrite truthy_ne0 by assumption. reflexivity. Qed.
